@@ -536,9 +536,85 @@ def transplanted_definition_harness(ex):
     return {"definition": kind, "how": how}
 
 
+def dunder_harness(cname):
+    """names of the form __xxx__ that no trait declares follow the class default rule of EVERY HasTraits class: they cannot be read
+    before they exist (AttributeError), the first write creates a plain attribute, later reads return it - through attribute
+    assignment (has_traits_setattro interpreted from the source) and through a constructor keyword"""
+    def harness(ex):
+        cls = CLASSES[cname]()
+        o = cls()
+        it = cenv.new_interp() if ex.sym else None
+        name = ["__vt_meta__", "__x__", "__vt_a_b__"][ex.choice("name", 3)]
+        used = ex.flag("another_instance_used_the_name_before")
+        if used:
+            try:
+                setattr(cls(), name, 0)     # (the resolved name is then cached by the class and reads as None: by design)
+            except Exception:
+                ex.check(False, "the first write of an undeclared __xxx__ name creates the attribute (class default rule)")
+                return {"class": cname}
+        res = access(ex, it, o, "read", name, None)
+        if not used:
+            ex.check(res == ("raised", "AttributeError"), "an undeclared __xxx__ name cannot be read before it exists")
+        res = access(ex, it, o, "write", name, 5)
+        ex.check(res[0] == "ok" and o.__dict__.get(name) == 5, "the first write of an undeclared __xxx__ name creates the attribute (class default rule)")
+        res = access(ex, it, o, "read", name, None)
+        ex.check(res == ("ok", 5), "... which then reads as written")
+        res = access(ex, it, o, "write", name, "text")
+        ex.check(res[0] == "ok" and o.__dict__.get(name) == "text", "... and is untyped")
+        try:
+            o2 = cls(**{"__vt_ctor__": 3})
+            got = o2.__dict__.get("__vt_ctor__")
+        except Exception as e:
+            got = type(e).__name__
+        ex.check(got == 3, "a constructor keyword follows the same rule")
+        return {"class": cname}
+    return harness
+
+
+def companions_harness(cname):
+    """add_trait(name, <container or mapped trait>) also defines companion names (<name>_items, <name>_); remove_trait(name) takes
+    them away again: afterwards EVERY name is governed as before the trait was added"""
+    from traits.api import List, Dict, Set, Map
+
+    def harness(ex):
+        cls = CLASSES[cname]()
+        o = cls()
+        kind = ex.choice("added", 4)
+        mk = [lambda: List(Int), lambda: Dict(Str, Int), lambda: Set(Int), lambda: Map({"a": 1, "b": 2})][kind]
+        before = sorted(n_ for n_ in o._instance_traits() if n_ != "trait_added")
+        o.add_trait("extra", mk())
+        if ex.flag("value_assigned"):
+            o.extra = [[1], {"k": 1}, {1}, "b"][kind]
+        companion = "extra_" if kind == 3 else "extra_items"
+        ex.check(companion in o._instance_traits(), "(fixture) the companion name is defined with the trait")
+        removed = o.remove_trait("extra")
+        ex.check(removed is True and sorted(n_ for n_ in o._instance_traits() if n_ != "trait_added") == before,
+                 "remove_trait takes the trait AND its companion names away")
+        ex.check("extra" not in o.__dict__ and companion not in o.__dict__, "... with their values")
+        strict = cname in ("QS", "QP")          # undeclared public names are rejected by HasStrictTraits and HasPrivateTraits alike
+        for name in ("extra", companion):
+            try:
+                setattr(o, name, 5)
+                res = "ok"
+            except TraitError:
+                res = "TraitError"
+            if strict:
+                ex.check(res == "TraitError", "after the removal the class rule governs the name again: an undeclared name of a strict class cannot be written")
+            else:
+                ex.check(res == "ok" and o.__dict__.get(name) == 5, "after the removal the class rule governs the name again: a plain, untyped attribute")
+        return {"class": cname, "kind": kind}
+    return harness
+
+
 def obligations(tier, build):
     cenv.load_program(build)
     obs = []
+    for cname in CLASSES:
+        obs.append(Obligation("dunder-names/%s" % cname, dunder_harness(cname), stubs=STUBS,
+                              bounds={"class": cname, "names": "three __xxx__ names", "entry points": ["attribute access (interpreted)", "constructor keyword"]},
+                              leverage="choice feasibility only"))
+        obs.append(Obligation("companions/%s" % cname, companions_harness(cname), stubs=[],
+                              bounds={"class": cname, "added": ["List", "Dict", "Set", "Map"]}, leverage="choice feasibility only"))
     for cls in FIXTURES:
       if tier == "quick" and cls in (P3, P6):
           continue
